@@ -60,8 +60,52 @@
 (*              CallStartsFresh, HealthyAfterFailure, FirstError and       *)
 (*              NoFailEqualsString violated in the second call.            *)
 (*                                                                         *)
-(* Actions: ChooseWriter (enumeration staged in Next), Fprint(sz) -- one   *)
-(* per API call, Return, NextCall.  Chunk sequences are enumerated on the fly: every *)
+(* The writer's INTERFACE SET and the routes of a print (round 7).          *)
+(*   w.ifs      the optional interfaces the caller's writer has beside     *)
+(*              io.Writer: a subset of {"StringWriter", "ByteWriter",      *)
+(*              "ReaderFrom"} (a bare test double / gzip.Writer / net.Conn *)
+(*              has none, strings.Builder and bytes.Buffer have            *)
+(*              WriteString and WriteByte, bufio.Writer and os.File also   *)
+(*              ReadFrom).  Bytes can reach the writer through EVERY       *)
+(*              method of MethodsOf(w.ifs): Write(p), WriteString(s),      *)
+(*              WriteByte(c), ReadFrom(r); all of them feed the same sink  *)
+(*              with the same capacity and failure behaviour, and obs      *)
+(*              counts the calls of all of them, so the laws below are     *)
+(*              laws over every method, not over Write alone.              *)
+(*   units      a print is a unit [sz, kind]: kind "fmt" a formatted print *)
+(*              (fmt.FprintX: always exactly one Write, whatever the       *)
+(*              writer implements), "str" a ready string (a function body: *)
+(*              f.LLString()), "byte" a single separator byte.  Sizes come *)
+(*              from UnitSizes and differ widely (0, 1 ... more than two   *)
+(*              MaxWrite: three pieces).                                   *)
+(*   Route      "fmt": as written, every unit is one Write.  "direct": a   *)
+(*              legitimate alternative (skip fmt's copy of the operand):   *)
+(*              a "str" unit goes through WriteString if the writer has    *)
+(*              it, else through ReadFrom (io.Copy) if it has that, else   *)
+(*              through Write in pieces of at most MaxWrite bytes (loop    *)
+(*              ends at the first error); a "byte" unit through WriteByte  *)
+(*              if present.  The laws hold for both routes (WriterDirect   *)
+(*              .cfg): they do not depend on how the wrapper reaches the   *)
+(*              writer.                                                    *)
+(*   deviations on the direct route (each a class of plausible slips):     *)
+(*     PieceCount = "running": size += the running total of the unit once  *)
+(*              per piece instead of the bytes of the piece.  Invisible    *)
+(*              for every unit of one piece and for every writer with      *)
+(*              WriteString; CountExact violated for a plain writer and a  *)
+(*              unit > MaxWrite.                                           *)
+(*     LatchBy = "redirect": instead of testing the latch the wrapper      *)
+(*              swaps its destination for io.Discard at the first error    *)
+(*              (size and err frozen).  Correct if every view of the       *)
+(*              writer is swapped (CachedViews = FALSE).  CachedViews =    *)
+(*              TRUE: the io.StringWriter / io.ByteWriter / io.ReaderFrom  *)
+(*              views resolved once at construction keep pointing at the   *)
+(*              caller's writer: n and err stay right, but every later     *)
+(*              unit routed through such a view still reaches the writer:  *)
+(*              NoWriteAfterFailure and PrefixDelivered violated, only for *)
+(*              writers that HAVE the interface.                           *)
+(*                                                                         *)
+(* Actions: ChooseWriter (enumeration staged in Next), Unit(sz, kind) --   *)
+(* one per print, Return, NextCall.  Chunk sequences are enumerated on the fly: every *)
 (* sequence of <= MaxChunks sizes 0..MaxSize is a path; with Given # <<>>  *)
 (* the chunk sequences are the given ones (sizes of the Write calls of a   *)
 (* real module, recorded by the harness) and TLC generates one vector per  *)
@@ -97,11 +141,17 @@
 (***************************************************************************)
 EXTENDS Integers, Sequences, FiniteSets, TLC, Json
 
-CONSTANTS MaxChunks, MaxSize,     \* enumeration bounds (ignored when Given # <<>>)
+CONSTANTS MaxChunks, UnitSizes,   \* enumeration bounds: prints per call, set of sizes of a print (ignored when Given # <<>>)
+          UnitKinds,              \* subset of {"fmt", "str", "byte"} ("byte" units have size 1)
+          IfaceSets,              \* set of interface sets (subsets of {"StringWriter", "ByteWriter", "ReaderFrom"})
+          Route, MaxWrite,        \* "fmt" (as written) | "direct"; piece limit of the direct route (0 = none)
+          PieceCount, LatchBy, CachedViews,   \* "piece" | "running"; "test" | "redirect"; see header
           LatchError, CountAccepted, KeepFirstError,
           Modes,                  \* subset of {"never", "whole", "prefix", "silent"}
           Pieces,                 \* set of re-chunking piece sizes, 0 = none
-          GivenFile,              \* "" or the name of an NDJSON file: one array of chunk sizes per line
+          GivenFile,              \* "" or the name of an NDJSON file, one module per line: [c |-> sizes of its prints,
+                                  \*   all |-> 1: every capacity 0..Len(String()), 0: the capacities k, k |-> capacities,
+                                  \*   p |-> re-chunking piece sizes of the writers]
           MaxCalls,               \* length of the history: WriteTo calls made one after the other
           LaterModes,             \* writer modes of the calls after the first (a subset of Modes)
           FreshPerCall            \* TRUE: as written: every WriteTo allocates its own fmtWriter
@@ -164,19 +214,30 @@ Resp(wr, sz) ==
 (* fmtWriter: pure step functions, shared with WriterTrace.tla *)
 
 FwInit  == [n |-> 0, err |-> 0]
-ObsInit == [calls |-> 0, failedAt |-> 0, accepted |-> 0, sinkWrites |-> 0, offered |-> 0]
+\* methods: the methods through which the writer was called; pieces: the largest number of calls one print took
+ObsInit == [calls |-> 0, failedAt |-> 0, accepted |-> 0, sinkWrites |-> 0, offered |-> 0, methods |-> {}, pieces |-> 0]
+
+\* the methods of a writer with the optional interfaces ifs
+IfaceMethod(i) == CASE i = "StringWriter" -> "WriteString" [] i = "ByteWriter" -> "WriteByte" [] i = "ReaderFrom" -> "ReadFrom"
+AllIfaces == {"StringWriter", "ByteWriter", "ReaderFrom"}
+MethodsOf(ifs) == {"Write"} \cup {IfaceMethod(i) : i \in ifs}
 
 \* the early return
 FwSkips(f) == LatchError /\ f.err # 0
 \* one performed print of sz bytes whose Write (call number c) answered (acc, fail)
-FwStep(f, c, sz, acc, fail) ==
-  [n   |-> f.n + (IF CountAccepted THEN acc ELSE sz),
+\* (add = what the wrapper adds to size for this call: the bytes the call accepted, as written)
+FwStepN(f, c, sz, add, fail) ==
+  [n   |-> f.n + (IF CountAccepted THEN add ELSE sz),
    err |-> IF KeepFirstError /\ f.err # 0 THEN f.err ELSE IF fail THEN c ELSE 0]
-ObsStep(o, sz, acc, fail, writes) ==
+FwStep(f, c, sz, acc, fail) == FwStepN(f, c, sz, acc, fail)
+\* one call of the writer through method via (any of Write, WriteString, WriteByte, ReadFrom)
+ObsStepM(o, via, sz, acc, fail, writes) ==
   [calls |-> o.calls + 1, offered |-> o.offered + sz,
    failedAt |-> IF fail /\ o.failedAt = 0 THEN o.calls + 1 ELSE o.failedAt,
    accepted |-> o.accepted + acc,
-   sinkWrites |-> o.sinkWrites + writes]
+   sinkWrites |-> o.sinkWrites + writes,
+   methods |-> o.methods \cup {via}, pieces |-> o.pieces]
+ObsStep(o, sz, acc, fail, writes) == ObsStepM(o, "Write", sz, acc, fail, writes)
 
 \* append the interval lo..hi to a sequence of maximal intervals
 AddInterval(d, lo, hi) ==
@@ -208,51 +269,96 @@ FailsAtCapacityP(s, wr) ==
   /\ (wr.mode = "prefix" /\ wr.cap0 < s.slen) => s.dlen = wr.cap0
 
 ----------------------------------------------------------------------------
+(* Routes: how one print reaches the writer *)
+
+Max(S) == CHOOSE x \in S : \A y \in S : y <= x
+\* sizes of the pieces in which sz bytes are handed over when no piece may exceed mw (0 = no limit)
+PieceSizes(sz, mw) ==
+  IF mw = 0 \/ sz <= mw THEN <<sz>>
+  ELSE [j \in 1..((sz + mw - 1) \div mw) |-> IF j * mw <= sz THEN mw ELSE sz - (j - 1) * mw]
+\* the calls (method, bytes offered) by which a print of sz bytes of kind `kind` reaches a writer that
+\* has the optional interfaces ifs
+UnitCalls(sz, kind, ifs) ==
+  IF Route = "fmt" \/ kind = "fmt" THEN << [via |-> "Write", sz |-> sz] >>            \* fmt.FprintX: one Write
+  ELSE IF kind = "byte" THEN << [via |-> IF "ByteWriter" \in ifs THEN "WriteByte" ELSE "Write", sz |-> sz] >>
+  ELSE IF "StringWriter" \in ifs THEN << [via |-> "WriteString", sz |-> sz] >>
+  ELSE IF "ReaderFrom" \in ifs THEN << [via |-> "ReadFrom", sz |-> sz] >>              \* io.Copy(w, reader over s)
+  ELSE LET ps == PieceSizes(sz, MaxWrite) IN [j \in DOMAIN ps |-> [via |-> "Write", sz |-> ps[j]]]
+
+\* LatchBy = "redirect": after the first error the destination is io.Discard.  A call through Write
+\* always uses the swapped field; a call through a view of the writer resolved at construction is
+\* redirected only if the views are swapped too.
+Redirected(via) == via = "Write" \/ ~CachedViews
+
+\* The calls cs[j..] of one print, performed on st = [w, fw, obs, dl]; base = position in String()
+\* before the first byte of call j; run = bytes of this print accepted so far (the running total of
+\* the piece loop).  The loop ends at the first failing call.
+RECURSIVE DoCalls(_, _, _, _, _)
+DoCalls(st, cs, j, base, run) ==
+  IF j > Len(cs) THEN st
+  ELSE LET c == cs[j]
+           swapped == LatchBy = "redirect" /\ st.fw.err # 0
+       IN IF swapped /\ Redirected(c.via)
+          THEN DoCalls(st, cs, j + 1, base + c.sz, run)               \* io.Discard took it: (len, nil)
+          ELSE LET r   == Resp(st.w, c.sz)
+                   add == IF PieceCount = "running" THEN run + r.acc ELSE r.acc
+                   nst == [w   |-> [st.w EXCEPT !.cap = r.cap, !.failed = r.failed],
+                           \* done(): once swapped, size and err keep their values
+                           fw  |-> IF swapped THEN st.fw ELSE FwStepN(st.fw, st.obs.calls + 1, c.sz, add, r.fail),
+                           obs |-> ObsStepM(st.obs, c.via, c.sz, r.acc, r.fail, r.writes),
+                           dl  |-> AddInterval(st.dl, base + 1, base + r.acc)]
+               IN IF r.fail THEN nst ELSE DoCalls(nst, cs, j + 1, base + c.sz, run + r.acc)
+
+----------------------------------------------------------------------------
 (* The state machine *)
-VARIABLES stage, w, chunks, fw, obs, delivered,
+VARIABLES stage, w, chunks, kinds, fw, obs, delivered,
           sess       \* the history: [call |-> number of this WriteTo, prevFailed |-> an earlier call failed]
-vars == <<stage, w, chunks, fw, obs, delivered, sess>>
+vars == <<stage, w, chunks, kinds, fw, obs, delivered, sess>>
 
 RECURSIVE SumSeq(_)
 SumSeq(s) == IF s = <<>> THEN 0 ELSE Head(s) + SumSeq(Tail(s))
 
 Enumerating == Given = <<>>
-GivenSeq(src) == IF Enumerating \/ src = 0 THEN <<>> ELSE Given[src]
-MaxTotal(src) == IF Enumerating THEN MaxChunks * MaxSize ELSE SumSeq(GivenSeq(src))
+GivenSeq(src) == IF Enumerating \/ src = 0 THEN <<>> ELSE Given[src].c
+MaxTotal(src) == IF Enumerating THEN MaxChunks * Max(UnitSizes) ELSE SumSeq(GivenSeq(src))
 Sources == IF Enumerating THEN {0} ELSE 1..Len(Given)
-NoWriter == [mode |-> "none", sticky |-> FALSE, piece |-> 0, cap |-> 0, cap0 |-> 0, failed |-> FALSE, src |-> 0]
+\* capacities and piece sizes of the writers tried on a source
+Caps(src) == IF Enumerating \/ Given[src].all = 1 THEN 0..MaxTotal(src)
+             ELSE {Given[src].k[i] : i \in DOMAIN Given[src].k}
+PiecesOf(src) == IF Enumerating THEN Pieces ELSE {Given[src].p[i] : i \in DOMAIN Given[src].p}
+NoWriter == [mode |-> "none", sticky |-> FALSE, piece |-> 0, cap |-> 0, cap0 |-> 0, failed |-> FALSE, src |-> 0, ifs |-> {}]
 
-Init == /\ stage = "cfg" /\ w = NoWriter /\ chunks = <<>>
+Init == /\ stage = "cfg" /\ w = NoWriter /\ chunks = <<>> /\ kinds = <<>>
         /\ fw = FwInit /\ obs = ObsInit /\ delivered = <<>>
         /\ sess = [call |-> 1, prevFailed |-> FALSE]
 
 \* enumeration of the writer behaviours, one step (not in Init: all workers share it)
 ChooseWriter ==
   /\ stage = "cfg"
-  /\ \E src \in Sources, m \in (IF sess.call = 1 THEN Modes ELSE LaterModes), st \in BOOLEAN, p \in Pieces :
-     \E c \in 0..MaxTotal(src) :
+  /\ \E src \in Sources, m \in (IF sess.call = 1 THEN Modes ELSE LaterModes), st \in BOOLEAN, ifs \in IfaceSets :
+     \E p \in PiecesOf(src), c \in Caps(src) \cup {0} :
        /\ (m = "never" => ~st /\ c = 0)          \* no capacity, nothing to stick to
+       /\ (m # "never" => c \in Caps(src))
        /\ (m = "silent" => ~st /\ p = 0)
-       /\ w' = [mode |-> m, sticky |-> st, piece |-> p, cap |-> c, cap0 |-> c, failed |-> FALSE, src |-> src]
+       /\ w' = [mode |-> m, sticky |-> st, piece |-> p, cap |-> c, cap0 |-> c, failed |-> FALSE, src |-> src, ifs |-> ifs]
   /\ stage' = "run"
-  /\ UNCHANGED <<chunks, fw, obs, delivered, sess>>
+  /\ UNCHANGED <<chunks, kinds, fw, obs, delivered, sess>>
 
 Total == obs.offered             \* bytes formatted so far; Len(String()) once all prints are done
 
-\* fw.Fprint / fw.Fprintf / fw.Fprintln with a formatted text of sz bytes
-Fprint(sz) ==
+\* one print of WriteTo: fw.Fprint / fw.Fprintf / fw.Fprintln with a formatted text of sz bytes (kind
+\* "fmt"; the only kind as written), or a ready string / a separator byte on the direct route
+Unit(sz, kind) ==
   /\ stage = "run"
-  /\ IF Enumerating THEN Len(chunks) < MaxChunks
+  /\ IF Enumerating THEN Len(chunks) < MaxChunks /\ (kind = "byte" => sz = 1)
      ELSE Len(chunks) < Len(GivenSeq(w.src)) /\ sz = GivenSeq(w.src)[Len(chunks) + 1]
-  /\ chunks' = Append(chunks, sz)
-  /\ IF FwSkips(fw)
-     THEN /\ obs' = [obs EXCEPT !.offered = @ + sz]                  \* return 0, nil
-          /\ UNCHANGED <<w, fw, delivered>>
-     ELSE LET r == Resp(w, sz) IN
-          /\ w' = [w EXCEPT !.cap = r.cap, !.failed = r.failed]
-          /\ fw' = FwStep(fw, obs.calls + 1, sz, r.acc, r.fail)     \* size += n ; err = err
-          /\ obs' = ObsStep(obs, sz, r.acc, r.fail, r.writes)
-          /\ delivered' = AddInterval(delivered, Total + 1, Total + r.acc)
+  /\ chunks' = Append(chunks, sz) /\ kinds' = Append(kinds, kind)
+  /\ LET st0 == [w |-> w, fw |-> fw, obs |-> obs, dl |-> delivered]
+         st  == IF LatchBy = "test" /\ FwSkips(fw) THEN st0                           \* return 0, nil
+                ELSE DoCalls(st0, UnitCalls(sz, kind, w.ifs), 1, Total, 0)           \* size += n ; err = err
+         took == st.obs.calls - obs.calls
+     IN /\ w' = st.w /\ fw' = st.fw /\ delivered' = st.dl
+        /\ obs' = [st.obs EXCEPT !.offered = obs.offered + sz, !.pieces = IF took > @ THEN took ELSE @]
   /\ UNCHANGED <<stage, sess>>
 
 \* return fw.size, fw.err
@@ -260,7 +366,7 @@ Return ==
   /\ stage = "run"
   /\ (~Enumerating => Len(chunks) = Len(GivenSeq(w.src)))
   /\ stage' = "done"
-  /\ UNCHANGED <<w, chunks, fw, obs, delivered, sess>>
+  /\ UNCHANGED <<w, chunks, kinds, fw, obs, delivered, sess>>
 
 \* The next WriteTo of the history: another writer, the same or another module (chunk sequence).
 \* As written every call does fw := &fmtWriter{w: w}.  FreshPerCall = FALSE is a pooled fmtWriter
@@ -268,18 +374,19 @@ Return ==
 \* of ANOTHER writer, -1) is still set when the next call starts.
 NextCall ==
   /\ stage = "done" /\ sess.call < MaxCalls
-  /\ stage' = "cfg" /\ w' = NoWriter /\ chunks' = <<>> /\ obs' = ObsInit /\ delivered' = <<>>
+  /\ stage' = "cfg" /\ w' = NoWriter /\ chunks' = <<>> /\ kinds' = <<>> /\ obs' = ObsInit /\ delivered' = <<>>
   /\ fw' = IF FreshPerCall THEN FwInit ELSE [n |-> 0, err |-> IF fw.err = 0 THEN 0 ELSE -1]
   /\ sess' = [call |-> sess.call + 1, prevFailed |-> sess.prevFailed \/ obs.failedAt # 0]
 
-Sizes == IF Enumerating THEN 0..MaxSize
+Sizes == IF Enumerating THEN UnitSizes
          ELSE IF Len(chunks) < Len(GivenSeq(w.src)) THEN {GivenSeq(w.src)[Len(chunks) + 1]} ELSE {}
+Kinds == IF Enumerating THEN UnitKinds ELSE {"fmt"}
 Next == \/ ChooseWriter
         \/ Return
         \/ NextCall
         \/ /\ stage = "run"
            /\ (Enumerating \/ Len(chunks) < Len(GivenSeq(w.src)))
-           /\ \E sz \in Sizes : Fprint(sz)
+           /\ \E sz \in Sizes, kd \in Kinds : Unit(sz, kd)
 Spec == Init /\ [][Next]_vars
 
 Summary == [n |-> fw.n, err |-> fw.err, calls |-> obs.calls, failedAt |-> obs.failedAt,
@@ -289,11 +396,16 @@ Done == stage = "done"
 Honest == w.mode # "silent"     \* the writer obeys the io.Writer contract
 
 TypeOK == /\ stage \in {"cfg", "run", "done"}
-          /\ fw.n \in Nat /\ fw.err \in Int /\ fw.err >= -1 /\ obs.calls <= Len(chunks)
+          /\ fw.n \in Nat /\ fw.err \in Int /\ fw.err >= -1
           /\ sess.call \in 1..MaxCalls
           /\ obs.failedAt <= obs.calls
+          /\ Len(kinds) = Len(chunks)
+          /\ (Route = "fmt" => obs.calls <= Len(chunks) /\ obs.pieces <= 1)
+          /\ obs.methods \subseteq MethodsOf(w.ifs)        \* only methods the writer has (Go's type system)
+          /\ (Route = "fmt" => obs.methods \subseteq {"Write"})
 
-\* invariants at every step (the count is exact all along, not only at the end)
+\* invariants at every step (the count is exact all along, not only at the end).  obs counts the calls
+\* of EVERY method, so each law speaks about Write, WriteString, WriteByte and ReadFrom alike.
 CountExact          == stage # "cfg" => CountExactP(Summary)
 NoWriteAfterFailure == stage # "cfg" => NoWriteAfterFailureP(Summary)
 PrefixDelivered     == stage # "cfg" /\ Honest => PrefixDeliveredP(Summary)
@@ -311,16 +423,23 @@ SilentStillCounts   == Done /\ w.mode = "silent" => CountExactP(Summary) /\ fw.e
 \* name the history effect.  Both are VIOLATED with FreshPerCall = FALSE.
 CallStartsFresh     == stage = "run" /\ chunks = <<>> => fw = FwInit
 HealthyAfterFailure == Done /\ Honest /\ sess.prevFailed /\ obs.failedAt = 0
-                         => fw.err = 0 /\ fw.n = Total /\ DeliveredLen(delivered) = Total /\ obs.calls = Len(chunks)
+                         => fw.err = 0 /\ fw.n = Total /\ DeliveredLen(delivered) = Total /\ obs.calls >= Len(chunks)
 
 \* vacuity guards (must be VIOLATED): failures and successes both occur
 NeverFails   == ~(Done /\ obs.failedAt # 0)
 AlwaysFails  == ~(Done /\ obs.failedAt = 0 /\ Total > 0)
 NeverSkips   == ~(Done /\ obs.calls < Len(chunks))
 NoHistory    == ~(Done /\ sess.call > 1 /\ sess.prevFailed /\ obs.failedAt = 0 /\ Total > 0)
+\* ... on the direct route (WriterDirect.cfg): a print goes out in three pieces; a failure in a piece
+\* after the first; every optional method is used
+NoThreePieces      == ~(Done /\ obs.pieces >= 3)
+NoFailInLaterPiece == ~(Done /\ obs.failedAt # 0 /\ obs.calls > Len(chunks))
+OnlyWrite          == ~(Done /\ obs.methods = {"Write", "WriteString", "WriteByte", "ReadFrom"})
 
 ----------------------------------------------------------------------------
-(* Generator: one vector per (chunk sequence, writer behaviour) at "done" *)
+(* Generator: one vector per (chunk sequence, writer behaviour) at "done".  Route = "fmt" never
+   consults w.ifs: the required outcome of (module, behaviour) is the same for every interface set,
+   and the harness compares the runs of every interface set with the one vector. *)
 Vector == <<"VEC", w.src, w.mode, w.sticky, w.piece, w.cap0,
             fw.n, fw.err, obs.calls, DeliveredLen(delivered), obs.sinkWrites, sess.call, sess.prevFailed>>
 EmitVector == Done => PrintT(Vector)
